@@ -15,7 +15,9 @@ package main
 //
 // Each case is evaluated repeatedly in this process (fresh compilation each time) and in
 // fresh subprocesses; every sequence of fork id strings must equal the first one and the
-// expected one.
+// expected one.  The expected order is NOT written down here any more: it is the reply of the
+// Lean model Martian.ForkOrder (driver op C10.forkorder) for the same roots / key sets (the
+// comment above paraphrases the model); harness/c10_forkmodel.go compares many more shapes.
 
 import (
 	"bytes"
@@ -44,6 +46,7 @@ type c10ForkCase struct {
 	ModelRoots string `json:"model_roots,omitempty"`
 	ModelTable string `json:"model_table,omitempty"`
 	ModelRt    string `json:"model_rt,omitempty"`
+	MinReps    int    `json:"min_reps,omitempty"`
 }
 
 const c10ForkStages = `stage STAGE(
@@ -265,6 +268,26 @@ call TOP(
 			Outs:       map[string]string{"TOP.PRODUCE": string(outs)},
 			ModelRoots: "d;d", ModelTable: ".", ModelRt: strings.Join(rtTable, "/")})
 	}
+	// ---- several split arguments of one call on ONE source line, of different static knowledge:
+	// a nested literal (the inner forks can be enumerated at compile time) and a run-time value
+	// (they cannot).  Which split represents the call (unifyMapSources / sortedSplitList) decided
+	// whether MakeForkIds lists `fork0/fork0 …` or undetermined forks: fix "splits on one line".
+	for _, kind := range []string{"array", "map"} {
+		elemT, lit1, lit2 := "int[]", "[[1, 2], [3, 4, 5]]", "[[6, 7], [8, 9, 10]]"
+		if kind == "map" {
+			elemT, lit1, lit2 = "map<int>", `[{"b": 1, "a": 2}, {"c": 3, "a": 4, "d": 5}]`, `[{"a": 6, "b": 7}, {"d": 8, "c": 9, "a": 10}]`
+		}
+		src := "stage PRODUCE(\n    in  int x,\n    out " + elemT + "[] ys,\n    src comp \"mock\",\n)\n\n" +
+			"stage LEAF(\n    in  int a,\n    in  int b,\n    in  int c,\n    in  int d,\n    in  int e,\n    out int r,\n    src comp \"mock\",\n)\n\n" +
+			"pipeline INNER(\n    in  " + elemT + " xs,\n    in  " + elemT + " ys,\n    in  " + elemT + " zs,\n    in  " + elemT + " ws,\n    in  " + elemT + " vs,\n    out int r,\n)\n{\n" +
+			"    map call LEAF(c = split self.zs, a = split self.ys, e = split self.vs, b = split self.xs, d = split self.ws,)\n\n" +
+			"    return (\n        r = 1,\n    )\n}\n\n" +
+			"pipeline TOP(\n    out int r,\n)\n{\n    call PRODUCE(\n        x = 1,\n    )\n\n" +
+			"    map call INNER(\n        xs = split " + lit1 + ",\n        ys = split PRODUCE.ys,\n        zs = split PRODUCE.ys,\n        ws = split " + lit2 + ",\n        vs = split " + lit1 + ",\n    )\n\n" +
+			"    return (\n        r = 1,\n    )\n}\n\ncall TOP()\n"
+		cases = append(cases, c10ForkCase{Name: "splits-on-one-line-" + kind, Class: "split-arguments-on-one-source-line-" + kind,
+			Src: src, Fqid: "TOP.INNER.LEAF", MinReps: 200})
+	}
 	return cases
 }
 
@@ -277,11 +300,31 @@ func c10ForkObserve(rt *core.Runtime, scratch string, cs *c10ForkCase, n int) (o
 	}()
 	var sb strings.Builder
 	if cs.Outs == nil {
-		ids, err := core.VerifCompiledForkIds(cs.Src, cs.Fqid)
-		if err != nil {
-			return "ERR:" + err.Error()
+		if cs.MinReps == 0 {
+			ids, err := core.VerifCompiledForkIds(cs.Src, cs.Fqid)
+			if err != nil {
+				return "ERR:" + err.Error()
+			}
+			sb.WriteString("MakeForkIds: " + strings.Join(ids, " ") + "\n")
+		} else {
+			// forks with undetermined parts have no id string: the model's part notation, and the
+			// serialized call graph
+			_, forks, err := core.VerifC10CompiledForkParts(cs.Src, cs.Fqid)
+			if err != nil {
+				return "ERR:" + err.Error()
+			}
+			sb.WriteString("MakeForkIds(parts): " + strings.Join(forks, " ") + "\n")
+			cgText := "ERR"
+			if _, _, ast, err := syntax.ParseSourceBytes([]byte(cs.Src), "forkorder.mro", nil, false); err != nil {
+				cgText = "ERR:" + err.Error()
+			} else if cg, err := ast.MakePipelineCallGraph("ID.ps.", ast.Call); err != nil {
+				cgText = "CGERR:" + err.Error()
+			} else {
+				b, _ := json.Marshal(cg)
+				cgText = string(b)
+			}
+			sb.WriteString("CallGraph(sha): " + c10Hash(cgText) + "\n")
 		}
-		sb.WriteString("MakeForkIds: " + strings.Join(ids, " ") + "\n")
 	}
 	if rt == nil {
 		return sb.String()
@@ -436,7 +479,11 @@ func c10ForkOrder(c *Ctx, rt *core.Runtime) {
 			return true
 		}
 		checkExpected(first[i], 0)
-		for k, ok := 1, true; k < reps && ok; k++ {
+		nrep := reps
+		if cs.MinReps > nrep {
+			nrep = cs.MinReps
+		}
+		for k, ok := 1, true; k < nrep && ok; k++ {
 			got := c10ForkObserve(rt, c.Scratch, cs, k)
 			r.Evals++
 			if got != first[i] {
